@@ -114,6 +114,7 @@ func init() {
 		// ----- errors / fmt -----
 		"errors.Is":               stubErrorsIs,
 		"reflect.TypeOf":          stubReflectTypeOf,
+		"strings.TrimSpace":       stubTrimSpace,
 		"(*net.TCPAddr).AddrPort": stubAddrPort,
 		"(*net.UDPAddr).AddrPort": stubAddrPort,
 		"errors.As":               stubErrorsAs,
@@ -527,12 +528,27 @@ func stubTimeSub(e *Engine, c *callCtx) bool {
 	c.set(e.ibin(token.SUB, c.args[0].(TimeV).ns, c.args[1].(TimeV).ns))
 	return true
 }
+
+// Time.Unix / UnixMilli round toward minus infinity for instants before 1970 (the real Time keeps seconds and
+// a non-negative nanosecond part), unlike Go's integer division, which truncates toward zero.
+func (e *Engine) floorDivConst(a IntV, k int64) Value {
+	if e.ia {
+		q, _ := e.iaDivMod(a.t, big.NewInt(k))
+		return IntV{q, 64, true}
+	}
+	kc := e.cint(k, 64, true)
+	q := e.ibin(token.QUO, a, kc).(IntV)
+	r := e.ibin(token.REM, a, kc).(IntV)
+	neg := e.ibin(token.LSS, r, e.cint(0, 64, true)).(BoolV)
+	qm1 := e.ibin(token.SUB, q, e.cint(1, 64, true)).(IntV)
+	return IntV{e.tb.Ite(neg.t, qm1.t, q.t), 64, true}
+}
 func stubTimeUnix(e *Engine, c *callCtx) bool {
-	c.set(e.ibin(token.QUO, c.args[0].(TimeV).ns, e.cint(1e9, 64, true)))
+	c.set(e.floorDivConst(c.args[0].(TimeV).ns, 1e9))
 	return true
 }
 func stubTimeUnixMilli(e *Engine, c *callCtx) bool {
-	c.set(e.ibin(token.QUO, c.args[0].(TimeV).ns, e.cint(1e6, 64, true)))
+	c.set(e.floorDivConst(c.args[0].(TimeV).ns, 1e6))
 	return true
 }
 func stubTimeUnixNano(e *Engine, c *callCtx) bool {
@@ -1198,4 +1214,30 @@ func stubIOCopy(e *Engine, c *callCtx) bool {
 	e.sawFunc(c.name)
 	e.pushFrame(c.st, c.callee, c.args, nil, c.res)
 	return false
+}
+
+// strings.TrimSpace: computed on literals; on an opaque string the result is an arbitrary string that is a
+// function of the argument (memoised per state): it may or may not equal the argument, as for a real string
+// with or without surrounding white space.
+func stubTrimSpace(e *Engine, c *callCtx) bool {
+	s := c.args[0].(StrV)
+	if s.k == strLit {
+		c.set(StrV{k: strLit, lit: strings.TrimSpace(s.lit)})
+		return true
+	}
+	if s.k != strOpaque {
+		panic(hardErr("strings.TrimSpace on a byte-backed symbolic string"))
+	}
+	if c.st.ghost == nil {
+		c.st.ghost = map[string]Value{}
+	}
+	key := fmt.Sprintf("trimspace:%s:%d", s.tag, s.t.id)
+	if v, ok := c.st.ghost[key]; ok {
+		c.set(v)
+		return true
+	}
+	v := e.freshOpaqueStr(s.tag)
+	c.st.ghost[key] = v
+	c.set(v)
+	return true
 }
